@@ -109,6 +109,10 @@ type c17Job struct {
 
 	runningAtLastReconcile bool
 	resvChangedSince       bool
+
+	// the pattern "unschedulable report -> reconcile records ReservationScheduled=False -> reservation scheduled on the
+	// target pod's own node -> reconcile": 1 = False condition persisted, 2 = then scheduled on the pod's node, 3 = then reconciled
+	unschedThenSameNode int
 }
 
 type c17Stamp struct{ sig, msg string }
@@ -751,6 +755,13 @@ func (e *c17Env) reconcile(t *rapid.T, j *c17Job) {
 	}
 	j.runningAtLastReconcile = post.Status.Phase == sev1alpha1.PodMigrationJobRunning
 	j.resvChangedSince = false
+	if j.unschedThenSameNode == 2 && !preTerminal {
+		j.unschedThenSameNode = 3
+	}
+	if cnd := c17JobCond(post, sev1alpha1.PodMigrationJobConditionReservationScheduled); j.unschedThenSameNode == 0 && !j.direct &&
+		cnd != nil && cnd.Status == sev1alpha1.PodMigrationJobConditionStatusFalse && !c17Terminal(post.Status.Phase) {
+		j.unschedThenSameNode = 1
+	}
 }
 
 func c17JobCond(job *sev1alpha1.PodMigrationJob, typ sev1alpha1.PodMigrationJobConditionType) *sev1alpha1.PodMigrationJobCondition {
@@ -903,6 +914,17 @@ func TestVerifC17History(t *testing.T) {
 			}
 			return true
 		}
+		scheduleOn := func(j *c17Job, r *sev1alpha1.Reservation, node string) {
+			if p := e.getPod(j.podName); p != nil && p.Spec.NodeName == node {
+				e.sawSameNode = true
+				for _, o := range e.jobs {
+					if o.resvName == r.Name && o.unschedThenSameNode == 1 {
+						o.unschedThenSameNode = 2
+					}
+				}
+			}
+			e.resvSchedule(r, node)
+		}
 		all := map[string]func(*rapid.T){
 			// the environment does the next thing a healthy cluster would do for a drawn job
 			"envProgress": func(t *rapid.T) {
@@ -929,6 +951,13 @@ func TestVerifC17History(t *testing.T) {
 					// an eviction that went through removes the pod, whether or not the controller managed to record it
 					_ = e.base.Delete(c17Ctx, pod)
 					e.hist = append(e.hist, fmt.Sprintf("env: evicted pod %s (uid %s) is gone", pod.Name, pod.UID))
+				case r != nil && c17ResvIsPending(r) && !j.direct && c17ResvCond(r, sev1alpha1.ReservationConditionScheduled) == nil && rapid.IntRange(0, 2).Draw(t, "unschedulableFirst") == 2:
+					// a first scheduling attempt that finds no node is an ordinary event
+					e.resvUnschedulable(r, rapid.Bool().Draw(t, "setPhase"), "0/3 nodes are available")
+				case r != nil && c17ResvIsPending(r) && !j.direct && c17ResvCond(r, sev1alpha1.ReservationConditionScheduled) != nil && j.unschedThenSameNode == 0 && rapid.Bool().Draw(t, "retryLater"):
+					t.Skip("the scheduler retries later")
+				case r != nil && c17ResvIsPending(r) && j.unschedThenSameNode == 1 && pod != nil && pod.Spec.NodeName != "" && rapid.Bool().Draw(t, "retryFindsPodNode"):
+					scheduleOn(j, r, pod.Spec.NodeName)
 				case r != nil && c17ResvIsPending(r):
 					node := rapid.SampledFrom(c17Nodes).Draw(t, "node")
 					if n := e.colocateNode(t, j); n != "" {
@@ -956,10 +985,27 @@ func TestVerifC17History(t *testing.T) {
 				}
 				j, r := pickResv(t, c17ResvIsPending)
 				node := e.pickNode(t, j)
-				if p := e.getPod(j.podName); p != nil && p.Spec.NodeName == node {
-					e.sawSameNode = true
+				scheduleOn(j, r, node)
+			},
+			// aimed at one ordering: the scheduler first reports the reservation unschedulable (the controller copies that into a
+			// ReservationScheduled=False condition on its next reconcile) and only later finds a node, which may be the pod's own
+			"unschedulableThenPodNode": func(t *rapid.T) {
+				if e.dead {
+					return
 				}
-				e.resvSchedule(r, node)
+				j, r := pickResv(t, c17ResvIsPending)
+				if j.direct {
+					t.Skip("direct mode")
+				}
+				p := e.getPod(j.podName)
+				switch {
+				case c17ResvCond(r, sev1alpha1.ReservationConditionScheduled) == nil:
+					e.resvUnschedulable(r, rapid.Bool().Draw(t, "setPhase"), "0/3 nodes are available")
+				case j.unschedThenSameNode == 1 && p != nil && p.Spec.NodeName != "":
+					scheduleOn(j, r, p.Spec.NodeName)
+				default:
+					t.Skip("report not yet recorded by the controller, or no placed pod")
+				}
 			},
 			"resvUnschedulable": func(t *rapid.T) {
 				if e.dead {
@@ -1160,21 +1206,23 @@ func TestVerifC17History(t *testing.T) {
 		}
 		resvEvent := group("resvSchedule", "resvSchedule", "resvSchedule", "resvUnschedulable", "resvExpire", "resvDelete", "resvBind", "resvBind")
 		t.Repeat(map[string]func(*rapid.T){
-			"":                    all[""],
-			"reconcile-a":         doReconcile,
-			"reconcile-b":         doReconcile,
-			"reconcile-c":         doReconcile,
-			"reconcile-d":         doReconcile,
-			"reconcile-e":         doReconcile,
-			"env-progress-a":      all["envProgress"],
-			"env-progress-b":      all["envProgress"],
-			"env-progress-c":      all["envProgress"],
-			"reservation-event-a": resvEvent,
-			"reservation-event-b": resvEvent,
-			"pod-event":           group("podDelete", "podReplace", "pendingPodScheduled", "podReady"),
-			"clock":               all["clock"],
-			"fault":               all["fault"],
-			"restart-or-new-job":  group("restart", "createJob", "createJob"),
+			"":                        all[""],
+			"reconcile-a":             doReconcile,
+			"reconcile-b":             doReconcile,
+			"reconcile-c":             doReconcile,
+			"reconcile-d":             doReconcile,
+			"reconcile-e":             doReconcile,
+			"env-progress-a":          all["envProgress"],
+			"env-progress-b":          all["envProgress"],
+			"env-progress-c":          all["envProgress"],
+			"reservation-event-a":     resvEvent,
+			"reservation-event-b":     resvEvent,
+			"unsched-then-pod-node-a": all["unschedulableThenPodNode"],
+			"unsched-then-pod-node-b": all["unschedulableThenPodNode"],
+			"pod-event":               group("podDelete", "podReplace", "pendingPodScheduled", "podReady"),
+			"clock":                   all["clock"],
+			"fault":                   all["fault"],
+			"restart-or-new-job":      group("restart", "createJob", "createJob"),
 		})
 
 		// ---- distribution
@@ -1205,6 +1253,13 @@ func TestVerifC17History(t *testing.T) {
 		c.ClassIf(e.sawFaultAfterEvict, "write-fails-right-after-evict")
 		c.ClassIf(e.sawResvChangeWhileRunning, "reservation-changes-under-running-job")
 		c.ClassIf(e.sawSameNode, "reservation-scheduled-on-pod-node")
+		pat1, pat3 := false, false
+		for _, j := range e.jobs {
+			pat1 = pat1 || j.unschedThenSameNode >= 1
+			pat3 = pat3 || j.unschedThenSameNode == 3
+		}
+		c.ClassIf(pat1, "unschedulable-report-recorded-as-False-condition")
+		c.ClassIf(pat3, "unschedulable-recorded-then-scheduled-on-pod-node-then-reconciled")
 		c.ClassIf(e.sawEvictReplacement, "evicted-pod-uid-differs-from-job-podref-uid(not asserted)")
 		c.ClassIf(e.sawEvictRetry, "evict-retried-after-api-failure")
 		c.ClassIf(e.sawBoundBeforeEvict, "reservation-bound-before-eviction")
